@@ -28,7 +28,7 @@ BOUNDS_FAMILIES = {
     # beyond the library's default 16-bit range (legal: bounds are free): coefficients past 2**31
     "huge": [(0, 2 ** 33), (-2 ** 33, 2 ** 33), (0, 2 ** 40), (-2 ** 31 - 5, 7), (0, 1)],
 }
-FAULT_KINDS = ["abort-arg", "abort-callback", "solver-raise", "solver-none", "solver-lazy", "solver-status",
+FAULT_KINDS = ["abort-async", "abort-arg", "abort-callback", "solver-raise", "solver-none", "solver-lazy", "solver-status",
                "solver-vectype", "defer", "abandon"]
 PLAIN_QUERIES = ["errors", "flatten", "variables", "atomic_propositions", "compound_propositions", "is_tautology",
                  "is_contradiction", "equation_bounds", "bounds", "id", "to_json", "json_dumps", "to_text",
@@ -91,6 +91,7 @@ class Gen:
         self.events = []      # abstract event log for coverage signature
         self.skipped = {}
         self.last_keys = {}
+        self.async_abort = False   # only C09 histories carry asynchronous aborts
         self.history = {}     # handle -> call ops emitted on it (for echo / replay on a reborn object)
         self.force_solver = None
         self.hits = {}
@@ -142,7 +143,9 @@ class Gen:
         if op["op"] == "call" and op.get("m") not in ("eq",):
             self.history.setdefault(op["h"], []).append(op)
         self.probe(op, ref)
-        if isinstance(ref, dict) and "obj" in ref:
+        if isinstance(ref, dict) and "obj" in ref and not op.get("abort_at"):
+            # (an object-creating call that carries an asynchronous abort may finish in one execution and not in the
+            #  other: whatever it returns is never used again)
             name = op.get("h") if op["op"] in ("new", "restore") else op.get("out")
             if name:
                 self.register(name, ref["obj"], op, meta or {})
@@ -178,6 +181,8 @@ class Gen:
                     self.hit("interp-names-compound-id-of-target")
                 elif any(k != "zz" and k not in H["info"]["leaves"] for k, _ in items):
                     self.hit("interp-names-id-of-related-object")
+            if op.get("abort_at"):
+                self.hit("abort-async:fired-inside-the-call" if (exc and exc[1] == "_AsyncAbort") else "abort-async:call-finished-first")
             if exc and not items:
                 self.hit("library-exception:" + exc[1])
         for s in ref.get("seam") or []:
@@ -782,7 +787,13 @@ class Gen:
             if rng.random() < 0.5:
                 op["a"]["only_leafs"] = rng.random() < 0.7
             self._consume(op)
-        elif m == "eq":
+        if self.async_abort and self.p["fault"].get("abort-async") and op.get("consume") != "defer" \
+                and m not in ("eq", "id", "bounds") and rng.random() < 0.07:
+            # an asynchronous exception delivered at the k-th line of library code executed inside this call
+            op["abort_at"] = rng.choice([1, 2, 3, 5, 8, 13, 21, 34, 55, 89, 144, 233, 377, 610, 987])
+            self.fault("abort-async")
+            tags.append("abort-async")
+        if m == "eq":
             others = [o for o in self.order if o != h and self.handles[o]["kind"] != "poly"]
             if not others:
                 op["m"] = "id"
@@ -845,7 +856,7 @@ def uses_builtin(op):
     return engine.uses_builtin_solver(op)
 
 
-STATE_BEARING = {"names-compound", "abort-arg", "abort-callback"}
+STATE_BEARING = {"names-compound", "abort-arg", "abort-callback", "abort-async"}
 STATE_METHODS = {"ge_polyhedron", "select", "leafs", "add", "solve", "to_ge_polyhedron", "assume", "negate",
                  "reduce", "json_rt", "b64_rt", "to_b64", "to_json"}
 
@@ -930,6 +941,7 @@ def gen_c09(rng, oracle, run_index, tier="quick"):
         p["bounds_family"] = rng.choice(["twin", "small", "neg"])
         p["depth"] = max(p["depth"], 2)
     g = Gen(rng, p, oracle)
+    g.async_abort = True
     pair_solver = rng.choice(["builtin", "builtin", {"mode": "exact"}, None])
     echo_prob = rng.choice([0.0, 0.1, 0.25])
     if rel == "twin":
